@@ -4,6 +4,9 @@ META = {
         "little-endian host (the WORDS_BIGENDIAN branches of csum.c / crc32c.c are not compiled)",
         "pattern T: the CRC primitive is a logging stub returning fresh symbolic tokens; that the real primitive "
         "equals the CRC definition is the subject of crc16_d / crc32c_d",
+        "pattern P (extget_p, iscan_p, readinode_p, dirblk_p[w], xattr_p[w], bitmaps_p[w], mmp_p[w]): the per-object set/verify "
+        "routine of csum.c is a recording stub with a symbolic verdict / token; that the real routine covers the "
+        "format-defined bytes is the subject of csum_t; the device is a small symbolic array",
     ],
     "outside": [
         "e2fsck -fn exit status after a byte flip, and checksums in images written by whole tools (whole-tool runs)",
@@ -16,8 +19,14 @@ META = {
         "read/write paths that call the set/verify routines: encoded are ext2fs_extent_get (extget_p), the inode scan "
         "ext2fs_get_next_inode_full (iscan_p), write_backup_super and the primary-superblock tail of ext2fs_flush2 "
         "(sbwrite_t, incl. the incremental orig_super route as concrete scenarios), ext2fs_read_inode2 with its inode cache "
-        "(readinode_p); NOT encoded: ext2fs_write_inode2, dirblock.c, ext_attr.c, rw_bitmaps.c, mmp.c, "
-        "extent.c:update_path, group descriptor writes of ext2fs_flush2",
+        "(readinode_p), ext2fs_read_dir_block4 / ext2fs_write_dir_block4 (dirblk_p, dirblk_pw), ext2fs_read_ext_attr3 / "
+        "ext2fs_write_ext_attr3 (xattr_p, xattr_pw), read_bitmaps_range_start / write_bitmaps (bitmaps_p, bitmaps_pw), ext2fs_mmp_read / "
+        "ext2fs_mmp_write (mmp_p, mmp_pw); NOT encoded: ext2fs_write_inode2, extent.c:update_path, group descriptor writes of "
+        "ext2fs_flush2, the image-file branch and the thread fan-out of ext2fs_rw_bitmaps (C17 rw_partition), the "
+        "WORDS_BIGENDIAN byte-swap steps of dirblock.c / ext_attr.c / mmp.c (order of swab and verification)",
+        "bitmaps_p: inodes per group not a multiple of 8 (write_bitmaps rounds the byte count up, the reader down); the "
+        "bitmap tail-padding flags (C17 rw_locks); mmp_p: whether ext2fs_mmp_write refuses the two edge block numbers "
+        "(first data block, blocks count) -- it accepts both while ext2fs_mmp_read refuses both",
         "inode sizes other than 128/256, descriptor sizes other than 32/64/128, block sizes other than the small ones "
         "listed per harness (the code is parametric in them)",
         "big-endian hosts",
@@ -107,6 +116,36 @@ def crc32_cfgs():
     return c
 
 
+_DIRBLK_UW = ["main.%d:18" % i for i in range(6)] + [
+    "io_channel_read_blk64.0:18", "io_channel_read_blk64.1:6", "io_channel_write_blk64.0:18",
+    "ext2fs_dir_block_csum_verify.0:18", "ext2fs_dir_block_csum_set.0:18", "ext2fs_dir_block_csum_set.1:6"]
+_DIRBLK_BOUND = ("directory block of 16 bytes on a device of 4 blocks, every byte symbolic; block number, inode number, "
+                 "DIRENT flags argument, other fs->flags bits, checksum verdict, setter/device failures symbolic; "
+                 "IGNORE_CSUM_ERRORS on/off; read4/write4 and the oldest wrappers (inode number 0)")
+_XATTR_UW = ["main.%d:34" % i for i in range(6)] + [
+    "io_channel_read_blk64.0:34", "io_channel_read_blk64.1:5", "io_channel_write_blk64.0:34",
+    "ext2fs_ext_attr_block_csum_verify.0:34", "ext2fs_ext_attr_block_csum_set.0:34", "ext2fs_ext_attr_block_csum_set.1:6"]
+_XATTR_BOUND = ("xattr block of 32 bytes (one header) on a device of 3 blocks, every byte symbolic (magic and h_blocks "
+                "included); block number, inode number, other fs->flags bits, checksum verdict, setter/device failures "
+                "symbolic; IGNORE_CSUM_ERRORS on/off; read3/write3 and the read2/write2 wrappers (inode number 0)")
+_BITMAPS_UW = ["main.%d:66" % i for i in range(24)] + [
+    "io_channel_read_blk64.0:18", "io_channel_read_blk64.1:10", "io_channel_write_blk64.0:18",
+    "io_channel_write_blk64.1:4", "io_channel_write_blk64.2:4", "stub_verify.0:10", "stub_set.0:10",
+    "stub_load.0:10", "stub_load.1:4", "stub_get.0:10", "stub_get.1:4", "ref_devbyte.0:10",
+    "bitmap_tail_verify.0:14", "write_bitmaps.0:130", "write_bitmaps.1:4", "read_bitmaps_range_start.2:4"]
+_BITMAPS_BOUND = ("2 groups, block size 16 bytes, 64 clusters / 32 inodes per group (8 / 4 bitmap bytes), descriptors of 32 or 64 "
+                  "bytes fully symbolic (locations, bg_flags), 8 symbolic device blocks addressed by block number mod 8, blocks "
+                  "count 66..129 (last-group padding), in-core bitmap bytes, per-(group,kind) checksum verdicts, descriptor "
+                  "checksum verdicts, setter and device failures symbolic; which bitmaps, checksum feature (none / uninit_bg / "
+                  "metadata_csum), IGNORE_CSUM_ERRORS concrete per query")
+_MMP_UW = ["main.%d:1030" % i for i in range(6)] + [
+    "vf_read.0:1030", "ext2fs_mmp_csum_verify.0:1030", "ext2fs_mmp_csum_set.0:1030", "ext2fs_mmp_csum_set.1:6",
+    "io_channel_write_blk64.0:1030"]
+_MMP_BOUND = ("one MMP block of 1024 symbolic bytes (block size 1024 = sizeof(struct mmp_struct)); block number, first data "
+              "block, blocks count, time of day, descriptor open or not, regular file or device, checksum verdict, seek / "
+              "read / setter / write failures symbolic; IGNORE_CSUM_ERRORS on/off")
+
+
 HARNESSES = [
     dict(name="csum_t", src="csum_t.c", extra_src=["lib/ext2fs/blknum.c"],
          funcs=["ext2fs_inode_csum_verify", "ext2fs_inode_csum_set", "ext2fs_inode_csum"],
@@ -184,6 +223,45 @@ HARNESSES = [
          bound="one group of 16 inodes of 256 bytes, block size 1024; two consecutive reads of inode 3 with concrete "
                "flags (0 / READ_INODE_NOCSUM) per query, cache empty or full of other inodes, IGNORE_CSUM_ERRORS on/off; "
                "checksum verdict and inode payload symbolic"),
+    # protocol harnesses of the remaining read/write paths; one entry per direction because funcs= is checked
+    # against the first config of an entry only
+    dict(name="dirblk_p", src="dirblk_p.c",
+         funcs=["ext2fs_read_dir_block4", "ext2fs_read_dir_block"],
+         configs=[{"OP": 3}, {"OP": 1}, {"OP": 1, "IGN": 1}],
+         unwind=6, unwindset=_DIRBLK_UW, backends=["default", "kissat"], bound=_DIRBLK_BOUND),
+    dict(name="dirblk_pw", src="dirblk_p.c",
+         funcs=["ext2fs_write_dir_block4", "ext2fs_write_dir_block"],
+         configs=[{"OP": 4}, {"OP": 2}],
+         unwind=6, unwindset=_DIRBLK_UW, backends=["default", "kissat"], bound=_DIRBLK_BOUND),
+    dict(name="xattr_p", src="xattr_p.c",
+         funcs=["ext2fs_read_ext_attr3", "ext2fs_read_ext_attr2", "check_ext_attr_header"],
+         configs=[{"OP": 3}, {"OP": 1}, {"OP": 1, "IGN": 1}],
+         unwind=6, unwindset=_XATTR_UW, backends=["default", "kissat"], bound=_XATTR_BOUND),
+    dict(name="xattr_pw", src="xattr_p.c",
+         funcs=["ext2fs_write_ext_attr3", "ext2fs_write_ext_attr2"],
+         configs=[{"OP": 4}, {"OP": 2}],
+         unwind=6, unwindset=_XATTR_UW, backends=["default", "kissat"], bound=_XATTR_BOUND),
+    dict(name="bitmaps_p", src="bitmaps_p.c", extra_src=["lib/ext2fs/blknum.c", "lib/ext2fs/bitops.c"],
+         funcs=["read_bitmaps_range_start", "ext2fs_block_bitmap_loc", "ext2fs_inode_bitmap_loc", "ext2fs_bg_flags_test"],
+         configs=[{"OP": 1, "FL": 3, "FEAT": 2}, {"OP": 1, "FL": 3, "FEAT": 2, "DESC": 64},
+                  {"OP": 1, "FL": 3, "FEAT": 2, "IGN": 1}, {"OP": 1, "FL": 3, "FEAT": 1},
+                  {"OP": 1, "FL": 1, "FEAT": 2}, {"OP": 1, "FL": 2, "FEAT": 2},
+                  {"OP": 1, "FL": 3, "FEAT": 0, "_tier": "thorough"}],
+         unwind=6, unwindset=_BITMAPS_UW, backends=["default", "kissat"], bound=_BITMAPS_BOUND),
+    dict(name="bitmaps_pw", src="bitmaps_p.c", extra_src=["lib/ext2fs/blknum.c", "lib/ext2fs/bitops.c"],
+         funcs=["write_bitmaps", "ext2fs_block_bitmap_loc", "ext2fs_inode_bitmap_loc", "ext2fs_bg_flags_test"],
+         configs=[{"OP": 2, "FL": 3, "FEAT": 2}, {"OP": 2, "FL": 3, "FEAT": 2, "DESC": 64}, {"OP": 2, "FL": 3, "FEAT": 1},
+                  {"OP": 2, "FL": 1, "FEAT": 2}, {"OP": 2, "FL": 2, "FEAT": 2},
+                  {"OP": 2, "FL": 3, "FEAT": 0, "_tier": "thorough"}],
+         unwind=6, unwindset=_BITMAPS_UW, backends=["default", "kissat"], bound=_BITMAPS_BOUND),
+    dict(name="mmp_p", src="mmp_p.c", extra_src=["lib/ext2fs/blknum.c"],
+         funcs=["ext2fs_mmp_read"],
+         configs=[{"OP": 1}, {"OP": 1, "IGN": 1}],
+         unwind=6, unwindset=_MMP_UW, backends=["default", "kissat"], bound=_MMP_BOUND),
+    dict(name="mmp_pw", src="mmp_p.c", extra_src=["lib/ext2fs/blknum.c"],
+         funcs=["ext2fs_mmp_write"],
+         configs=[{"OP": 2}],
+         unwind=6, unwindset=_MMP_UW, backends=["default", "kissat"], bound=_MMP_BOUND),
     dict(name="crc16_d", src="crc16_d.c", funcs=["ext2fs_crc16"],
          configs=[{"MODE": 2, "LEN": n} for n in (2, 0, 1, 3)] + [{"MODE": 1}],
          unwindset=["ref_crc16_byte.0:9", "main.0:5", "ext2fs_crc16.0:5"], backends=["default", "kissat", "z3"],
@@ -223,7 +301,11 @@ MANIFEST = {
             "identity terms and the seed fully symbolic, the real set/verify routines feed the CRC exactly the "
             "byte range and seed chain the ext4 on-disk format defines (checksum fields zeroed or skipped), store "
             "the result at the defined offset/width, and verify accepts iff the stored field equals the result. "
-            "The CRC primitives are decided separately against their bitwise definitions within width limits.",
+            "The CRC primitives are decided separately against their bitwise definitions within width limits. "
+            "Protocol harnesses decide, for the read/write paths of extents, inode scan, single inode read, directory "
+            "blocks (dirblk_p), xattr blocks (xattr_p), allocation bitmaps (bitmaps_p) and the MMP block (mmp_p), that "
+            "the verify routine is shown exactly the bytes read with the right identity terms and a bad verdict is "
+            "never turned into success, and that the set routine runs on exactly the bytes that are then written.",
     "note": "Trusted: CBMC's C semantics; the harness's restatement of the ext4 checksum format (numeric offsets); "
             "little-endian host. Not decided: full-width slice-by-8 equivalence (decomposed), whole-tool behaviour.",
 }
